@@ -41,6 +41,9 @@ Next ==
   \/ (Stale /\ \E ok \in B : StaleBuildEval(ok) /\ Same)
   \/ (Stale /\ \E ok \in B : StaleCSetEval(ok) /\ Same)
   \/ (Stale /\ \E ok \in B, dec \in Decisions : StaleTrialEval(ok, dec) /\ Same)
+  \/ (Stale /\ nextAid < MaxTrials /\ CSetSkip(nextAid) /\ Fresh)
+  \/ (Stale /\ nextAid < MaxTrials /\ nfev < Pat * (NP + 1) /\ \E dec \in Decisions : TrialSetSkip(nextAid, dec) /\ Fresh)
+  \/ (Stale /\ ResetSetSkip(acc) /\ Same)
 Spec == Init /\ [][Next]_vars
 
 (* ---- termination of a fit (C04 budget, C08 "fit returns") at the design level ----
